@@ -1761,32 +1761,67 @@ impl FunctionCompiler<'_> {
                     assert!(sum_ty.is_optional() && !sum_ty.is_tagged_union());
                     // the scrutinee should be a pointer
                     assert_eq!(self.builder.func.dfg.value_type(scrutinee_val), self.ptr_ty);
-                    // todo: add support for default blocks here
-                    assert!(default.is_none());
 
                     let is_some = self
                         .builder
                         .ins()
                         .icmp_imm(IntCC::NotEqual, scrutinee_val, 0);
 
-                    assert_eq!(arm_blocks.len(), 2);
-                    let (nil_idx, nil_block) = arm_blocks
-                        .iter()
-                        .enumerate()
-                        .find(|(_, (ty, _, _))| **ty == Ty::Nil)
-                        .expect("this is an optional");
-                    assert!(nil_idx == 0 || nil_idx == 1);
-                    let some_idx = (nil_idx == 0) as usize;
-                    assert!(some_idx == 0 || some_idx == 1);
-                    assert_ne!(some_idx, nil_idx);
-                    let some_block = arm_blocks[some_idx];
+                    // each of the two cases goes to the arm that names it,
+                    // or to the default arm if it isn't named
+                    let default_block = default.map(|_| {
+                        let default_block = self.builder.create_block();
+                        self.func_writer[default_block] = "switch_default".into();
+                        default_block
+                    });
 
-                    self.func_writer[some_block.1] = "switch_arm_discrim1".into();
-                    self.func_writer[nil_block.1] = "switch_arm_discrim0".into();
+                    assert!(arm_blocks.len() <= 2);
+                    let nil_block = arm_blocks
+                        .iter()
+                        .find(|(ty, _, _)| **ty == Ty::Nil)
+                        .map(|(_, block, _)| *block);
+                    let some_block = arm_blocks
+                        .iter()
+                        .find(|(ty, _, _)| **ty != Ty::Nil)
+                        .map(|(_, block, _)| *block);
+
+                    if let Some(some_block) = some_block {
+                        self.func_writer[some_block] = "switch_arm_discrim1".into();
+                    }
+                    if let Some(nil_block) = nil_block {
+                        self.func_writer[nil_block] = "switch_arm_discrim0".into();
+                    }
+
+                    let some_block = some_block
+                        .or(default_block)
+                        .expect("the switch names every variant or has a default arm");
+                    let nil_block = nil_block
+                        .or(default_block)
+                        .expect("the switch names every variant or has a default arm");
 
                     self.builder
                         .ins()
-                        .brif(is_some, some_block.1, &[], nil_block.1, &[]);
+                        .brif(is_some, some_block, &[], nil_block, &[]);
+
+                    if let (Some(default), Some(default_block)) = (default, default_block) {
+                        self.builder.switch_to_block(default_block);
+                        self.builder.seal_block(default_block);
+
+                        if let Some(switch_arg) = default.switch_arg {
+                            self.switch_locals.insert(switch_arg, scrutinee_val);
+                        }
+
+                        let default_val =
+                            self.compile_and_cast_with_args(default.body, no_load, return_ty);
+
+                        if let Some(default_val) = default_val {
+                            self.builder
+                                .ins()
+                                .jump(exit_block, &[BlockArg::Value(default_val)]);
+                        } else {
+                            self.builder.ins().jump(exit_block, &[]);
+                        }
+                    }
                 }
 
                 for (variant_ty, arm_block, arm) in arm_blocks {
